@@ -538,7 +538,26 @@ pub fn c15_histories() -> Vec<History> {
         keys: k3(),
         ops,
     };
-    vec![
+    // One entry per block, compaction outputs closed after every second entry; the newest version
+    // of the largest key lives in an upper-level table of 2..4 entries that the next compaction
+    // merges as its very last input entry (an older version of it below on level 2, resp. no other
+    // version at all); the unflushed write is to the smallest key, so nothing is merged after that
+    // entry. Damage to that last block must not make the compaction drop the entry quietly.
+    let mut upper = vec![];
+    for n in 2..=4usize {
+        let top: Vec<(u8, bool)> = (0..n as u8).map(|k| (k, true)).collect();
+        let last = (n - 1) as u8;
+        for over_older in [true, false] {
+            let bottom = if over_older { Batch(vec![(0, true), (last, true)]) } else { Put(0, 0) };
+            upper.push(History {
+                name: format!("upper-level-last-key-{}-{}", if over_older { "over-older" } else { "only" }, n),
+                cfgs: cfgs(&["T1p"]),
+                keys: vec![b"c".to_vec(), b"d".to_vec(), b"e".to_vec(), b"f".to_vec()],
+                ops: vec![bottom, Flush, Batch(top.clone()), Flush, Put(0, 0)],
+            });
+        }
+    }
+    let mut v = vec![
         mk("tables-L0-L1-L2", "T300", vec![Put(0, 0), Put(1, 0), Flush, Put(0, 0), Put(2, 0), Flush, Del(1), Put(0, 0), Flush, Put(2, 0)]),
         mk("wal-only", "D", vec![Put(0, 0), Put(1, 0), Del(0), Batch(vec![(0, true), (2, true)]), Put(1, 0)]),
         mk(
@@ -569,7 +588,9 @@ pub fn c15_histories() -> Vec<History> {
         },
         // tombstones above older values on deeper levels, rotation left an unflushed WAL
         mk("tombstones+rotation", "M2n", vec![Put(0, 0), Put(1, 0), Put(2, 0), Del(0), Del(1), Put(0, 0), Del(2), Put(1, 0), Reopen(0), Del(0), Put(2, 0)]),
-    ]
+    ];
+    v.extend(upper);
+    v
 }
 
 pub fn c15(tier: &str) -> ! {
@@ -766,7 +787,7 @@ pub fn c15(tier: &str) -> ! {
     for img in imgs.iter() {
         rep.cov_push("samples", json!({"image": img.name, "history": img.history.describe(), "files": img.image.iter().map(|(p, d)| format!("{} ({} B)", p.display(), d.len())).collect::<Vec<_>>()}));
     }
-    rep.cov("rule", json!("one evaluation = one database image with one byte of one persistent file mutated (each bit flipped, set to 0x00; thorough also 0xff and +1; table files also truncated), opened with the real DB::open and read completely (get of every key, forward and backward scan). Oracle: every result is an error or correct; for a WAL the damaged records may be skipped (any value ever written to the key, or absence, is accepted). distinct_nontrivial = evaluations whose outcome differed from the uncorrupted run (open failed or some read failed) plus those that violated the oracle"));
+    rep.cov("rule", json!("one evaluation = one database image with one byte of one persistent file mutated (each bit flipped, set to 0x00; thorough also 0xff and +1; table files also truncated), opened with the real DB::open and read completely (get of every key, forward and backward scan, and for every key the cursor programs seek(k)+backwards-to-the-start and seek(k)+one-step-back+forwards-to-the-end on fresh iterators); for a damaged table file then compact_range(..) over everything and every key read again. Oracle: every result is an error or correct (a scan that ends without an error must be complete); for a WAL the damaged records may be skipped (any value ever written to the key, or absence, is accepted). distinct_nontrivial = evaluations whose outcome differed from the uncorrupted run (open failed or some read failed) plus those that violated the oracle"));
     rep.assume("single-byte corruption of one file of an otherwise intact image; large files sampled around block boundaries plus a stride");
     rep.assume("a scan that stops early without an error visible through the public iterator API counts as silently missing data");
     rep.cov("wall_build_s", json!(t0.elapsed().as_secs_f64()));
